@@ -24,6 +24,14 @@ fn lstr(s: &str) -> String {
     format!("\"{}\"", s.replace('\\', "\\\\").replace('"', "\\\""))
 }
 
+fn en(s: &str) -> String {
+    format!(".{}", s.replace('-', "_").replace('.', "_"))
+}
+
+fn toks(name: &str) -> String {
+    format!("[{}]", name.split('_').map(en).collect::<Vec<_>>().join(", "))
+}
+
 fn llist(v: &[String]) -> String {
     format!("[{}]", v.join(", "))
 }
@@ -294,7 +302,7 @@ fn export_macro_arms(src: &Source, out: &mut Output, rows: &mut Vec<String>) {
                 for f in fns {
                     rows.push(format!(
                         "{{ macro_ := {}, withFeatures := {}, nameVar := {}, hasTargetFeature := {}, constDims := {}, params := {}, callee := {}, typeArgs := {}, callArgs := {} }}",
-                        lstr(&name),
+                        en(&name),
                         with_features,
                         lstr(&f.name_var),
                         f.has_target_feature,
@@ -606,9 +614,9 @@ fn dispatch_macro(src: &Source, out: &mut Output, text: &mut String) {
                                 let label = labels.iter().find(|(_, v, _)| *v == fnvar).map(|x| x.0.clone()).unwrap_or_default();
                                 cands.push(format!(
                                     "{{ label := {}, cfg := {}, guards := {}, condIsGuardConjunction := {}, returnsCall := {} }}",
-                                    lstr(&label),
+                                    en(&label),
                                     cfg.as_ref().map(|c| c.lean_data()).unwrap_or_else(|| "(.all [])".into()),
-                                    lstrs(&guards),
+                                    llist(&guards.iter().map(|g| en(g)).collect::<Vec<_>>()),
                                     pure_conj,
                                     returns
                                 ));
@@ -632,10 +640,10 @@ fn dispatch_macro(src: &Source, out: &mut Output, text: &mut String) {
                 }
                 let fb_label = labels.iter().find(|(_, v, _)| *v == fallback_var).map(|x| x.0.clone()).unwrap_or_default();
                 text.push_str(&format!("def dispatchCandidates : List DispatchCand := [\n  {}\n]\n", cands.join(",\n  ")));
-                text.push_str(&format!("def dispatchFallbackLabel : String := {}\n", lstr(&fb_label)));
+                text.push_str(&format!("def dispatchFallbackLabel : Slot := {}\n", en(&fb_label)));
                 text.push_str(&format!(
-                    "def dispatchPatternLabels : List (String × Bool) := {}\n",
-                    llist(&labels.iter().map(|(l, _, o)| format!("({}, {})", lstr(l), o)).collect::<Vec<_>>())
+                    "def dispatchPatternLabels : List (Slot × Bool) := {}\n",
+                    llist(&labels.iter().map(|(l, _, o)| format!("({}, {})", en(l), o)).collect::<Vec<_>>())
                 ));
                 text.push_str(&format!("def dispatchTrailingTokens : Nat := {trailing}\n\n"));
                 out.items.push("macro:dispatch".into());
@@ -672,17 +680,18 @@ pub fn gen_tables(root: &Path, out: &mut Output, harness_dir: &Path) {
         .iter()
         .map(|r| {
             format!(
-                "{{ macro_ := {}, ty := {}, reg := {}, op := {}, xconst := {}, xany := {}, hasFeatures := {}, features := {}, module := {}, moduleCfg := {}, file := {}, line := {} }}",
-                lstr(&r.mac),
-                lstr(&r.ty),
-                lstr(&r.reg),
-                lstr(&r.op),
-                lstr(&r.xconst),
-                lstr(&r.xany),
+                "{{ macro_ := {}, ty := {}, reg := {}, op := {}, xconst := {}, xany := {}, hasFeatures := {}, features := {}, moduleCfg := {}, xanyName := {}, module := {}, file := {}, line := {} }}",
+                en(&r.mac),
+                en(&r.ty),
+                en(&r.reg),
+                en(&r.op),
+                toks(&r.xconst),
+                toks(&r.xany),
                 r.features.is_some(),
-                lstrs(r.features.as_deref().unwrap_or(&[])),
-                lstr(&r.module),
+                llist(&r.features.clone().unwrap_or_default().iter().map(|f| en(f)).collect::<Vec<_>>()),
                 r.module_cfg.as_ref().map(|c| c.lean_data()).unwrap_or_else(|| "(.all [])".into()),
+                lstr(&r.xany),
+                lstr(&r.module),
                 lstr(&r.file),
                 r.line
             )
@@ -714,18 +723,47 @@ pub fn gen_tables(root: &Path, out: &mut Output, harness_dir: &Path) {
         let macs = safe_macros(&src, out);
         for sm in &macs {
             for f in &sm.fns {
+                let form = if f.name_var == "const_name" { ".xconst" } else if f.name_var == "any_name" { ".xany" } else { ".unknown_form" };
+                let term = |t: &str| -> String {
+                    if t == "DIMS" {
+                        ".dims".to_string()
+                    } else if let Some(x) = t.strip_prefix("len ") {
+                        format!("(.len {})", en(x))
+                    } else {
+                        format!("(.unsupported_term_{})", t.replace(|c: char| !c.is_ascii_alphanumeric(), "_"))
+                    }
+                };
+                let slot_var = |v: &str| -> (String, String) {
+                    if let Some(x) = v.strip_suffix("_const_name") {
+                        (en(x), ".xconst".to_string())
+                    } else if let Some(x) = v.strip_suffix("_any_name") {
+                        (en(x), ".xany".to_string())
+                    } else {
+                        (format!(".unknown_{v}"), ".xany".to_string())
+                    }
+                };
                 safe_arm_rows.push(format!(
-                    "{{ macro_ := {}, nameVar := {}, constDims := {}, params := {}, returnsValue := {}, asserts := {}, slots := {}, otherStmts := {} }}",
-                    lstr(&sm.name),
-                    lstr(&f.name_var),
+                    "{{ macro_ := {}, form := {}, constDims := {}, params := {}, returnsValue := {}, asserts := {}, slots := {}, otherStmts := {} }}",
+                    en(&sm.name),
+                    form,
                     f.const_dims,
-                    llist(&f.params.iter().map(|(n, t)| format!("({}, {})", lstr(n), lstr(t))).collect::<Vec<_>>()),
+                    llist(&f.params.iter().map(|(n, t)| format!("({}, {})", en(n), lstr(t))).collect::<Vec<_>>()),
                     f.returns,
-                    llist(&f.asserts.iter().map(|(a, b)| format!("({}, {})", lstr(a), lstr(b))).collect::<Vec<_>>()),
+                    llist(&f.asserts.iter().map(|(a, b)| format!("({}, {})", term(a), term(b))).collect::<Vec<_>>()),
                     llist(
                         &f.slots
                             .iter()
-                            .map(|(l, v, d, a)| format!("{{ label := {}, fnVar := {}, passesDims := {}, args := {} }}", lstr(l), lstr(v), d, lstrs(a)))
+                            .map(|(l, v, d, a)| {
+                                let (sv, sf) = slot_var(v);
+                                format!(
+                                    "{{ label := {}, fnVarSlot := {}, fnVarForm := {}, passesDims := {}, args := {} }}",
+                                    en(l),
+                                    sv,
+                                    sf,
+                                    d,
+                                    llist(&a.iter().map(|x| en(x)).collect::<Vec<_>>())
+                                )
+                            })
                             .collect::<Vec<_>>()
                     ),
                     f.other_stmts
@@ -765,15 +803,25 @@ pub fn gen_tables(root: &Path, out: &mut Output, harness_dir: &Path) {
                         .vars
                         .iter()
                         .filter(|v| !["desc", "t", "const_name", "any_name"].contains(&v.as_str()))
-                        .map(|v| format!("({}, {})", lstr(v), lstr(&bind[v])))
+                        .map(|v| {
+                            let (sl, fm) = if let Some(x) = v.strip_suffix("_const_name") {
+                                (en(x), ".xconst")
+                            } else if let Some(x) = v.strip_suffix("_any_name") {
+                                (en(x), ".xany")
+                            } else {
+                                (format!(".unknown_{v}"), ".xany")
+                            };
+                            format!("({}, {}, {})", sl, fm, toks(&bind[v]))
+                        })
                         .collect();
                     safe_rows.push(format!(
-                        "{{ macro_ := {}, ty := {}, constName := {}, anyName := {}, bindings := {}, file := {}, line := {} }}",
-                        lstr(&name),
-                        lstr(&ty),
-                        lstr(&cn),
-                        lstr(&an),
+                        "{{ macro_ := {}, ty := {}, constName := {}, anyName := {}, bindings := {}, anyNameStr := {}, file := {}, line := {} }}",
+                        en(&name),
+                        en(&ty),
+                        toks(&cn),
+                        toks(&an),
                         llist(&b),
+                        lstr(&an),
                         lstr(rel),
                         im.span().start().line
                     ));
@@ -823,14 +871,14 @@ pub fn gen_tables(root: &Path, out: &mut Output, harness_dir: &Path) {
                     dtext.push('\n');
                     avail.push(format!(
                         "({}, {})",
-                        lstr(&n),
+                        en(&n),
                         cfg.as_ref().map(|c| c.lean_data()).unwrap_or_else(|| "(.all [])".into())
                     ));
                 }
             }
             dtext.push_str("end Cfavml\n");
             out.files.insert("Dispatch.lean".into(), dtext);
-            text.push_str(&format!("def availabilityFns : List (String × Cfg) := {}\n\n", llist(&avail)));
+            text.push_str(&format!("def availabilityFns : List (Guard × Cfg) := {}\n\n", llist(&avail)));
         },
         Err(e) => out.errors.push(e),
     }
@@ -848,17 +896,22 @@ pub fn gen_tables(root: &Path, out: &mut Output, harness_dir: &Path) {
 pub fn gen_impl_tables(infos: &[ImplInfo], out: &mut Output) {
     let mut rows = vec![];
     for i in infos {
-        for (m, ins) in &i.intrinsics {
+        for ins in i.intrinsics.values() {
             out.used_intrinsics.extend(ins.iter().cloned());
+        }
+    }
+    let index: Vec<String> = out.used_intrinsics.iter().cloned().collect();
+    for i in infos {
+        for (m, ins) in &i.intrinsics {
             let calls = i.calls.get(m).cloned().unwrap_or_default();
             rows.push(format!(
                 "{{ reg := {}, ty := {}, method := {}, isOverride := {}, intrinsics := {}, calls := {} }}",
-                lstr(&i.strukt),
-                lstr(&i.elem),
-                lstr(m),
+                en(&i.strukt),
+                en(&i.elem),
+                en(m),
                 i.overrides.contains(m),
-                lstrs(&ins.iter().cloned().collect::<Vec<_>>()),
-                llist(&calls.iter().map(|(s, e, mm)| format!("({}, {}, {})", lstr(s), lstr(e), lstr(mm))).collect::<Vec<_>>())
+                llist(&ins.iter().map(|x| format!("{}", index.iter().position(|y| y == x).unwrap())).collect::<Vec<_>>()),
+                llist(&calls.iter().map(|(s, e, mm)| format!("({}, {}, {})", en(s), en(e), en(mm))).collect::<Vec<_>>())
             ));
         }
     }
